@@ -1,2 +1,6 @@
 import Ufw.Props.C20
 #print axioms Ufw.Props.C20.error_no_tree
+#print axioms Ufw.Props.C20.no_outside_read
+#print axioms Ufw.Props.C20.terminates
+#print axioms Ufw.Props.C20.success_forward
+#print axioms Ufw.Props.C20.list_reader_safe
